@@ -1497,7 +1497,7 @@ func (w *world) run() {
 
 // windDown ends every goroutine of every router ever started (time stops when the bubble's root returns).
 func (w *world) windDown() {
-	if n := w.sendErrs.Load(); n > 0 {
+	if n := w.sendErrs.Load(); n > 0 && w.ctx != nil {
 		w.ctx.Faults["send-error"] += n
 	}
 	w.releaseGate("", 0)
